@@ -252,6 +252,9 @@ func (s *Scanner) Next() (lexeme.LexEvent, bool) {
 		case lexeme.InlineAnnotationTextBegin:
 			return s.processingFoundLexeme(lexeme.InlineAnnotationTextEnd), true
 		case lexeme.TypesShortcutBegin:
+			if s.unfinishedLiteral {
+				break
+			}
 			s.found(lexeme.MixedValueEnd)
 			return s.processingFoundLexeme(lexeme.TypesShortcutEnd), true
 		}
@@ -1161,6 +1164,7 @@ func stateNul(s *Scanner, c byte) state {
 
 func stateTypesShortcutBeginOfSchemaName(s *Scanner, c byte) state {
 	if bytes.IsValidUserTypeNameByte(c) {
+		s.unfinishedLiteral = false
 		s.step = stateTypesShortcutSchemaName
 		return scanContinue
 	}
@@ -1188,6 +1192,7 @@ func stateTypesShortcutSchemaName(s *Scanner, c byte) state {
 		s.step = stateTypesShortcutBeforePipe
 
 	case c == '|':
+		s.unfinishedLiteral = true
 		s.step = stateTypesShortcutAfterPipe
 
 	default:
@@ -1214,6 +1219,7 @@ func stateTypesShortcutBeforePipe(s *Scanner, c byte) state {
 		s.step = stateTypesShortcutBeforePipe
 
 	case c == '|':
+		s.unfinishedLiteral = true
 		s.step = stateTypesShortcutAfterPipe
 
 	default:
